@@ -116,6 +116,14 @@ def newBlock (old prev ref : Block) : Block := xorB old (G prev ref)
 /-- position of the previous block in a lane of length q: j − 1, and q − 1 for j = 0 -/
 def prevCol (q j : Nat) : Nat := (j + q - 1) % q
 
+/-- §3.2 steps 3–4: B[i][0] = H′^1024(H0 ‖ LE32(0) ‖ LE32(i)), B[i][1] = H′^1024(H0 ‖ LE32(1) ‖ LE32(i)); every
+    other block is still untouched (all-zero).  Lane-major: B[i][j] = mem[i·q + j]. -/
+def initRFC (h0 : Bytes) (p q : Nat) : Array Block :=
+  Array.ofFn (n := p * q) fun w =>
+    if w.val % q = 0 then blockOfBytes (hPrime 1024 (h0 ++ le32 0 ++ le32 (w.val / q)))
+    else if w.val % q = 1 then blockOfBytes (hPrime 1024 (h0 ++ le32 1 ++ le32 (w.val / q)))
+    else zeroB
+
 /-- §3.2 step 7: C = B[0][q−1] ⊕ B[1][q−1] ⊕ … ⊕ B[p−1][q−1]  (`mem` is lane-major: B[i][j] = mem[i·q + j]) -/
 def finalBlock (mem : Array Block) (p q : Nat) : Block :=
   (List.range p).foldl (fun acc i => xorB acc (mem.getD (i * q + q - 1) zeroBlock)) (Array.replicate 128 0)
